@@ -9,25 +9,25 @@ import (
 
 // Focus tunes the generator towards the mechanism of one property.
 type Focus struct {
-	Prop        string
-	Commands    float64 // probability that the program has commands
-	HelpCmd     float64
-	Env         float64 // probability that an option is bound to an env var
-	Required    float64
-	Unknown     float64 // weight of unknown option tokens
-	DashDash    float64
-	Bytes       float64 // raw byte tokens
-	Completion  float64
-	Dispatch    bool
-	Help        bool
-	ForceMode   int // -1 random
-	ForceRO     int // -1 random, 0 off, 1 on
-	MaxArgs     int
-	DefErrors   float64
-	Suggest     float64
-	MultiBias   float64 // preference for multi-value kinds
-	ScalarBias  float64
-	NonCanon    float64
+	Prop       string
+	Commands   float64 // probability that the program has commands
+	HelpCmd    float64
+	Env        float64 // probability that an option is bound to an env var
+	Required   float64
+	Unknown    float64 // weight of unknown option tokens
+	DashDash   float64
+	Bytes      float64 // raw byte tokens
+	Completion float64
+	Dispatch   bool
+	Help       bool
+	ForceMode  int // -1 random
+	ForceRO    int // -1 random, 0 off, 1 on
+	MaxArgs    int
+	DefErrors  float64
+	Suggest    float64
+	MultiBias  float64 // preference for multi-value kinds
+	ScalarBias float64
+	NonCanon   float64
 }
 
 func defaultFocus(prop string) Focus {
@@ -76,7 +76,7 @@ type gen struct {
 	forceName string
 }
 
-func (g *gen) p(x float64) bool { return g.r.Float64() < x }
+func (g *gen) p(x float64) bool       { return g.r.Float64() < x }
 func (g *gen) pick(l []string) string { return l[g.r.Intn(len(l))] }
 
 var namePool = []string{"v", "ver", "verbose", "version", "V", "f", "file", "force", "o", "out", "output", "é", "日本",
@@ -110,13 +110,13 @@ type optInfo struct {
 }
 
 type nodeInfo struct {
-	h        int
-	name     string
-	parent   int
-	opts     []*optInfo // own + inherited (approximation used only to aim the argv generator)
-	cmds     []int
-	wrapper  bool
-	ro       bool
+	h       int
+	name    string
+	parent  int
+	opts    []*optInfo // own + inherited (approximation used only to aim the argv generator)
+	cmds    []int
+	wrapper bool
+	ro      bool
 }
 
 type progInfo struct {
@@ -357,7 +357,7 @@ func (g *gen) genProgram(c *Case) *progInfo {
 		}
 	}
 	if g.p(0.15) {
-		script = append(script, DefOp{Op: "synarg", H: 0, Name: []string{"<file>", "", "<é>"}[g.r.Intn(3)], Desc: []string{"", "the file", "a\nb"}[g.r.Intn(3)]})
+		script = append(script, DefOp{Op: "synarg", H: 0, Name: []string{"<file>", "", "<é>", "<" + strings.Repeat("very-long-argument-", 4) + ">", strings.Repeat("x", 70+g.r.Intn(12))}[g.r.Intn(5)], Desc: []string{"", "the file", "a\nb"}[g.r.Intn(3)]})
 		if g.p(0.4) {
 			script = append(script, DefOp{Op: "synarg", H: 0, Name: "<other>", Desc: "other arg"})
 		}
@@ -444,6 +444,11 @@ func (g *gen) genProgram(c *Case) *progInfo {
 				}
 				if g.p(0.8) {
 					script = append(script, DefOp{Op: "fn", H: h, N: h})
+				}
+				if g.p(0.04) {
+					// Self on a command: only its description, or another name for its own help text (the parent
+					// keeps addressing it by the name it was created with)
+					script = append(script, DefOp{Op: "self", H: h, Name: []string{"", "", name, "renamed", "help"}[g.r.Intn(5)], Desc: []string{"", "described later", "50%!"}[g.r.Intn(3)]})
 				}
 				if g.p(0.1) {
 					script = append(script, DefOp{Op: "argcomp", H: h, L: []string{"carg1", "carg2"}})
@@ -903,6 +908,36 @@ func (g *gen) genCase(id int) *Case {
 	c.Reparse = !c.Help && !c.Dispatch && g.p(0.5) || (g.f.Prop == "C06" || g.f.Prop == "C12") && g.p(0.3)
 	if c.Reparse {
 		c.Dispatch, c.Help = false, false
+	}
+	pSet := 0.03
+	if g.f.Prop == "C06" || g.f.Prop == "C01" || g.f.Prop == "C02" || g.f.Prop == "C12" {
+		pSet = 0.08
+	}
+	if g.p(pSet) {
+		// SetValue on some object after the parse: an option of that level by name or alias, now and then an
+		// undeclared or empty name, no value at all, a value of the wrong type
+		for k := 1 + g.r.Intn(2); k > 0; k-- {
+			nd := pi.nodes[g.r.Intn(len(pi.nodes))]
+			sv := SetVal{H: nd.h, Name: []string{"nosuch", "", "h"}[g.r.Intn(3)], Vals: []string{"v"}}
+			if len(nd.opts) > 0 && g.p(0.85) {
+				oi := nd.opts[g.r.Intn(len(nd.opts))]
+				if oi.kind == KMap {
+					continue
+				}
+				sv.Name = oi.keys[g.r.Intn(len(oi.keys))]
+				sv.Vals = nil
+				for n := []int{0, 1, 1, 1, 2, 3}[g.r.Intn(6)]; n > 0; n-- {
+					sv.Vals = append(sv.Vals, g.valueFor(oi, g.p(0.8)))
+				}
+			}
+			huge := false
+			for _, v := range sv.Vals {
+				huge = huge || hugeRange(v)
+			}
+			if !huge {
+				c.SetVals = append(c.SetVals, sv)
+			}
+		}
 	}
 	if c.Help && g.p(0.3) {
 		// Help(sections...) with an explicit choice and order of sections
